@@ -249,10 +249,17 @@ TLoad == /\ Good("load")
                                                   IF Ev.cached /\ cfg.cache # "none" THEN "C02" ELSE "C05")
                     ELSE Finish(th, cur, rts, names, v, Bump(stat, "load"))
 
+(* a handle taken over from outside the history (race family): a persisted version given by its decoded tree and its entries *)
+PairsToMap(ps) == [k \in {ps[i][1] : i \in DOMAIN ps} |-> ps[CHOOSE i \in DOMAIN ps : ps[i][1] = k][2]]
+TAdopt == /\ Good("adopt")
+          /\ LET r == [root |-> Ev.link, height |-> Ev.rh, size |-> Ev.rs, model |-> PairsToMap(Ev.ents)]
+                 t2 == [hr |-> DoLoad(r), model |-> r.model, bmodel |-> r.model, oh |-> r.height]
+             IN Finish([th EXCEPT ![Ev.h] = t2], cur, rts, names, {}, stat)
+
 TDrop == /\ Good("drop")
          /\ Finish([th EXCEPT ![Ev.h] = DeadT], cur, rts, names, {}, stat)
 
-TNext == TReset \/ TSkip \/ TNew \/ TIns \/ TDel \/ TGet \/ TIter \/ TSize \/ TClone \/ TCursor \/ TCwalk \/ TRoot \/ TLoad \/ TDrop
+TNext == TReset \/ TSkip \/ TNew \/ TIns \/ TDel \/ TGet \/ TIter \/ TSize \/ TClone \/ TCursor \/ TCwalk \/ TRoot \/ TLoad \/ TDrop \/ TAdopt
 TSpec == TInit /\ [][TNext]_tvars
 
 Report == (l = Len(Trace) + 1) => PrintT(<<"REPORT", ToJson([viol |-> viol, stat |-> stat, consumed |-> l - 1])>>)
